@@ -146,6 +146,9 @@ def prove_lemmas(pid, timeout_ms):
     return out
 
 
+# properties that depend on module-level constants (evaluated as closed terms, pyvc/native/closed_terms.py)
+CLOSED_TERM_PROPS = ('C06', 'C19')
+
 BOUNDED_STANDINS = {
     # property -> bounded native checks (never counted as proved; a disagreement is a concrete failing input)
     'C07': [dict(name='expression-parser', script='pyvc/native/bounded_c07.py', quick=['4'], thorough=['5'],
@@ -247,6 +250,26 @@ def run(pid, tier, seed=0, jobs=None, only=None, verbose=False):
             st = {'ok': 'proved', 'violation': 'refuted', 'undecided': 'unknown'}[s_['verdict']]
             e = dict(name='audit/' + s_['name'], kind='audit', clause=s_['detail'], instances=1, status=st,
                      backends={'ast-audit'}, fn=audit14.__module__, model=s_['detail'], max_size=0)
+            res['by_name'][e['name']] = e
+            {'proved': res['proved'], 'refuted': res['refuted'], 'unknown': res['unknown']}[st].append(e)
+        res['n_ob'] = len(res['by_name'])
+    if pid in CLOSED_TERM_PROPS:
+        import subprocess
+        os.makedirs(os.path.join(VERIF, 'replays', pid), exist_ok=True)
+        rf = os.path.join(VERIF, 'replays', pid, 'closed_terms.json')
+        env = dict(os.environ, PYTHONPATH=os.environ.get('PYVC_REPO_SRC', '/repo/src'))
+        p_ = subprocess.run(['/venv/bin/python', os.path.join(VERIF, 'pyvc/native/closed_terms.py'), rf],
+                            capture_output=True, text=True, env=env, timeout=300)
+        try:
+            terms = json.load(open(rf))
+        except Exception:
+            terms = [dict(name='closed-terms', clause='the constants could be evaluated', holds=None,
+                          value=(p_.stderr or p_.stdout)[-500:])]
+        for t_ in terms:
+            st = 'unknown' if t_['holds'] is None else ('proved' if t_['holds'] else 'refuted')
+            e = dict(name='closed-term/' + t_['name'], kind='closed-term', clause=t_['clause'], instances=1, status=st,
+                     backends={'cpython-closed-term'}, fn='pyvc/native/closed_terms.py', model=json.dumps(t_['value']),
+                     max_size=0)
             res['by_name'][e['name']] = e
             {'proved': res['proved'], 'refuted': res['refuted'], 'unknown': res['unknown']}[st].append(e)
         res['n_ob'] = len(res['by_name'])
